@@ -69,9 +69,15 @@ func cpLine(rng *rand.Rand) []byte {
 	b := []byte("verif.example/log .")
 	extra := randBytes(rng, rng.Intn(40))
 	for i := range extra {
-		if extra[i] == '\n' || extra[i] == '\r' {
+		if extra[i] == '\n' {
 			extra[i] = 0xff
 		}
+		if extra[i] == '\r' && i == len(extra)-1 { // (a trailing CR would be eaten by the line reader in the proof area)
+			extra[i] = 0xfe
+		}
+	}
+	if rng.Intn(4) == 0 {
+		b = append(b, '\r', ' ', 0)
 	}
 	return append(b, extra...)
 }
